@@ -417,7 +417,7 @@ Lemma dany_handle_metadata_packet : forall h cl ck sz names msgs, DAny (handle_m
 Proof. intros. minv. Qed.
 #[local] Hint Resolve dany_handle_metadata_packet : minv.
 
-Lemma dany_handle_eof_without_previous_metadata : forall ck sz, DAny (handle_eof_without_previous_metadata ck sz).
+Lemma dany_handle_eof_without_previous_metadata : forall c ck sz, DAny (handle_eof_without_previous_metadata c ck sz).
 Proof. intros. minv. Qed.
 #[local] Hint Resolve dany_handle_eof_without_previous_metadata : minv.
 
